@@ -176,6 +176,9 @@ def c29(ck, F, tier):
     guarded(ck, ra.column_flow, F)
     guarded(ck, ra.column_wrappers, F)
     guarded(ck, ra.row_flow, F)
+    guarded(ck, ra.delete_style_flow, F)
+    ck.rule("WIDTH-ACTUAL", "stored column widths never derive from the displayed width", floor=4)
+    guarded(ck, ra.width_actual, F)
 
 
 def c11(ck, F, tier):
